@@ -1,5 +1,5 @@
 from vdriver import Group
-META = {'level': 'other'}
+META = {'level': 'other', 'assumptions': ['groups decode.*: base64_decode is taken by its contract stub with the payload length NOT tied to the text length (over-approximation) and a URI text of at most 10 characters']}
 def groups(tier):
     CH = ['--bounds-check', '--pointer-check', '--signed-overflow-check', '--div-by-zero-check', '--undefined-shift-check']
     return [Group('decode.v1.total', 'manifest_dec', 'C18/decode.c', entry='h_decode_stub', stub=['protocol__base64_decode'], unwind=4,
